@@ -1,5 +1,5 @@
 import NanoVerif.Gen.Flags
-import NanoVerif.Proofs.C06RealFn
+import NanoVerif.Proofs.C06Enet
 import NanoVerif.Proofs.C06Deriv
 /-!
   C06 — values, gradients and convexity flags of functions, losses and constraints are truthful.
@@ -366,6 +366,25 @@ theorem ridge_partial_subgrad_mu (f : List α → α) (g : List α → List α) 
 
 end field
 
+/-! ## the elastic-net prototypes (`mse|mae|hinge|logistic + ridge|lasso|elasticnet`) -/
+
+/-- `loss(inputs·x + b, targets)/N + α₁‖x‖₁ + ½‖√α₂ x‖²` with the gradient the code returns: convex with the declared
+    `strong_convexity(α₂)` for EVERY kernel lying above its tangents, every data matrix, bias, targets, `α₁, α₂ ≥ 0` -/
+theorem elastic_net_subgrad (kV kG : ℝ → ℝ → ℝ) (hk : ∀ t x z, kV t z ≥ kV t x + kG t x * (z - x))
+    (a1 a2 : ℝ) (h1 : 0 ≤ a1) (h2 : 0 ≤ a2) (A : List (List ℝ)) (b : ℝ) (t x z : List ℝ)
+    (hne : t ≠ []) (hA : A.length = t.length) (hrows : ∀ r ∈ A, r.length = x.length) (hl : z.length = x.length) :
+    enetF kV a1 a2 A b t z ≥ enetF kV a1 a2 A b t x + dot (enetG kG a1 a2 A b t x) (vsub z x)
+      + a2 / 2 * dot (vsub z x) (vsub z x) := enet_aux kV kG hk a1 a2 h1 h2 A b t x z hne hA hrows hl
+
+/-- the four convex kernels of elastic_net.h satisfy the hypothesis of `elastic_net_subgrad` (cauchy does not: the
+    cauchy prototypes are declared non-convex) -/
+theorem elastic_net_kernels :
+    (∀ t x z : ℝ, enetMseV t z ≥ enetMseV t x + enetMseG t x * (z - x)) ∧
+    (∀ t x z : ℝ, maeV t z ≥ maeV t x + maeG t x * (z - x)) ∧
+    (∀ t x z : ℝ, enetHingeV t z ≥ enetHingeV t x + enetHingeG t x * (z - x)) ∧
+    (∀ t x z : ℝ, enetLogisticV t z ≥ enetLogisticV t x + enetLogisticG t x * (z - x)) :=
+  ⟨enetMseK, maeK_subgrad, enetHingeK, enetLogisticK⟩
+
 /-! ## the returned gradient is the derivative (smooth scalar kernels, target fixed, as functions of the output) -/
 
 theorem mse_hasDerivAt (t o : ℝ) : HasDerivAt (fun o => 1 / 2 * mseV t o) (mseG t o) o := mse_deriv t o
@@ -383,6 +402,12 @@ def provenConvex : List Obj := [
   .fn_maxq, .fn_maxhilb, .fn_chained_lq, .fn_chained_cb3I, .fn_chained_cb3II, .fn_trid, .fn_kinks, .fn_sargan, .fn_sphere, .fn_zakharov,
   .fn_quadratic, .fn_exponential, .fn_chung_reynolds, .fn_axis_ellipsoid, .fn_schumer_steiglitz, .fn_rotated_ellipsoid,
   .fn_geometric_optimization,
+  -- elastic-net prototypes: `elastic_net_subgrad` + `elastic_net_kernels`
+  .fn_mse_ridge_1, .fn_mse_ridge_100, .fn_mse_ridge_10000, .fn_mse_ridge_1e_06, .fn_mse_lasso_1, .fn_mse_lasso_100,
+  .fn_mse_lasso_10000, .fn_mse_lasso_1e_06, .fn_mse_elasticnet_1_1, .fn_mse_elasticnet_100_100,
+  .fn_mse_elasticnet_10000_10000, .fn_mse_elasticnet_1e_06_1e_06, .fn_mae_ridge_1, .fn_mae_lasso_1,
+  .fn_mae_elasticnet_1_1, .fn_hinge_ridge_1, .fn_hinge_lasso_1, .fn_hinge_elasticnet_1_1, .fn_logistic_ridge_1,
+  .fn_logistic_lasso_1, .fn_logistic_elasticnet_1_1,
   .loss_mae, .loss_mse, .loss_m_hinge, .loss_s_hinge, .loss_m_squared_hinge, .loss_s_squared_hinge, .loss_s_classnll,
   .loss_m_logistic, .loss_s_logistic, .loss_s_exponential, .loss_m_exponential, .loss_pinball,
   .ct_constant, .ct_minimum, .ct_maximum, .ct_ball_eq, .ct_ball_ineq, .ct_linear_eq, .ct_linear_ineq,
@@ -390,19 +415,7 @@ def provenConvex : List Obj := [
 
 /-- objects flagged convex whose inequality is only tested by the search (with the reason) -/
 def testedOnly : List (Obj × String) := [
-  (.fn_maxquad, "max of K quadratic forms whose matrices are filled with exp/cos/sin formulas: not modelled"),
-  (.fn_mse_ridge_1, "elastic-net prototype = loss∘affine + l1 + ridge over synthetic data: follows from mse_subgrad, affine_comp_subgrad, sum_subgrad, ridge_subgrad_mu; the instance is not modelled"),
-  (.fn_mse_ridge_100, "as mse+ridge[1]"), (.fn_mse_ridge_10000, "as mse+ridge[1]"), (.fn_mse_ridge_1e_06, "as mse+ridge[1]"),
-  (.fn_mse_lasso_1, "as mse+ridge[1]"), (.fn_mse_lasso_100, "as mse+ridge[1]"), (.fn_mse_lasso_10000, "as mse+ridge[1]"),
-  (.fn_mse_lasso_1e_06, "as mse+ridge[1]"), (.fn_mse_elasticnet_1_1, "as mse+ridge[1]"),
-  (.fn_mse_elasticnet_100_100, "as mse+ridge[1]"), (.fn_mse_elasticnet_10000_10000, "as mse+ridge[1]"),
-  (.fn_mse_elasticnet_1e_06_1e_06, "as mse+ridge[1]"),
-  (.fn_mae_ridge_1, "as mse+ridge[1] with mae_subgrad"), (.fn_mae_lasso_1, "as mse+ridge[1] with mae_subgrad"),
-  (.fn_mae_elasticnet_1_1, "as mse+ridge[1] with mae_subgrad"),
-  (.fn_hinge_ridge_1, "as mse+ridge[1] with hinge_subgrad"), (.fn_hinge_lasso_1, "as mse+ridge[1] with hinge_subgrad"),
-  (.fn_hinge_elasticnet_1_1, "as mse+ridge[1] with hinge_subgrad"),
-  (.fn_logistic_ridge_1, "as mse+ridge[1] with logistic_subgrad (its own log(1+exp) kernel)"),
-  (.fn_logistic_lasso_1, "as logistic+ridge[1]"), (.fn_logistic_elasticnet_1_1, "as logistic+ridge[1]")]
+  (.fn_maxquad, "max of K quadratic forms whose matrices are filled with exp/cos/sin formulas: not modelled")]
 
 set_option maxRecDepth 100000 in
 /-- every object that DECLARES itself convex (any dimension of the dump) owns a convexity theorem or is on the explicit
@@ -414,19 +427,17 @@ theorem flags_covered :
 /-- objects whose declared strong-convexity coefficient is part of a theorem above -/
 def provenStrong : List Obj := [
   .fn_sphere, .fn_axis_ellipsoid, .fn_exponential, .ct_ball_eq, .ct_ball_ineq, .ct_functional_eq_sphere,
-  .ct_functional_ineq_sphere]
+  .ct_functional_ineq_sphere,
+  -- `elastic_net_subgrad` carries the `α₂/2 ‖z − x‖²` term
+  .fn_mse_ridge_1, .fn_mse_ridge_100, .fn_mse_ridge_10000, .fn_mse_ridge_1e_06, .fn_mse_elasticnet_1_1,
+  .fn_mse_elasticnet_100_100, .fn_mse_elasticnet_10000_10000, .fn_mse_elasticnet_1e_06_1e_06, .fn_mae_ridge_1,
+  .fn_mae_elasticnet_1_1, .fn_hinge_ridge_1, .fn_hinge_elasticnet_1_1, .fn_logistic_ridge_1,
+  .fn_logistic_elasticnet_1_1]
 
 def testedOnlyStrong : List (Obj × String) := [
   (.fn_quadratic, "smallest eigenvalue of A computed by Eigen"),
-  (.ct_quadratic_eq_psd, "smallest eigenvalue of P computed by Eigen"),
-  (.ct_quadratic_ineq_psd, "smallest eigenvalue of P computed by Eigen"),
-  (.fn_mse_ridge_1, "alpha2 of the ridge term on all coordinates: ridge_subgrad_mu; instance not modelled"),
-  (.fn_mse_ridge_100, "as mse+ridge[1]"), (.fn_mse_ridge_10000, "as mse+ridge[1]"), (.fn_mse_ridge_1e_06, "as mse+ridge[1]"),
-  (.fn_mse_elasticnet_1_1, "as mse+ridge[1]"), (.fn_mse_elasticnet_100_100, "as mse+ridge[1]"),
-  (.fn_mse_elasticnet_10000_10000, "as mse+ridge[1]"), (.fn_mse_elasticnet_1e_06_1e_06, "as mse+ridge[1]"),
-  (.fn_mae_ridge_1, "as mse+ridge[1]"), (.fn_mae_elasticnet_1_1, "as mse+ridge[1]"),
-  (.fn_hinge_ridge_1, "as mse+ridge[1]"), (.fn_hinge_elasticnet_1_1, "as mse+ridge[1]"),
-  (.fn_logistic_ridge_1, "as mse+ridge[1]"), (.fn_logistic_elasticnet_1_1, "as mse+ridge[1]")]
+  (.ct_quadratic_eq_psd, "smallest eigenvalue of (P + Pᵀ)/2 computed by Eigen"),
+  (.ct_quadratic_ineq_psd, "smallest eigenvalue of (P + Pᵀ)/2 computed by Eigen")]
 
 set_option maxRecDepth 100000 in
 /-- every CONVEX object that declares a positive strong-convexity coefficient owns a theorem with the `μ`-term or is on
